@@ -14,7 +14,7 @@
   a rerun reproduces (a pure function trivially does).
 -/
 import Demeter.Actuator.Causal
-import Proofs.Lemmas.CoreActuator3
+import Proofs.Lemmas.CoreCausal
 namespace Demeter
 open Core
 
@@ -178,6 +178,56 @@ theorem C02_state_prefix {D V S O : Type} (L : Loop D V S O) (hloc : L.view.Loca
       exact ih (k + 1) _ (by omega)
   exact key pre.length 0 s0 (by omega)
 
+/-! ### the abstract-market bar loop of Demeter/Actuator.lean, concretely -/
+
+/-- the bar loop consults the supplied data (market frames, price frame, resampled or not) only through the rows of the bars
+    it visits: two configurations that supply the same data for the bars `bars` (`AgreeAt`: same price row, and per market
+    the same `is_open`, the same row and the same open callback) produce the same trace, rows, actions and final state —
+    whatever else their frames contain (in particular: later rows) -/
+theorem C02_actuator_reads_own_bars_only (c₁ c₂ : Cfg) (sc : Script) (bars : List Int) (row : Nat) (st : St)
+    (h : ∀ t ∈ bars, AgreeAt c₁ c₂ t) : runBars c₁ sc row bars st = runBars c₂ sc row bars st :=
+  runBars_agree c₁ c₂ sc bars row st h
+
+/-- **C02 for the bar loop of Demeter/Actuator.lean.**  Two runs whose bar indexes share the prefix `pre` and whose data agree
+    on the bars of `pre` have the same call trace (hook calls with their snapshots, refreshes, operations and their outcomes,
+    recorded actions, account rows, notifications) for those bars, and are in the same state after them — whatever comes later. -/
+theorem C02_actuator_prefix (c₁ c₂ : Cfg) (sc : Script) (pre suf₁ suf₂ : List Int) (row : Nat) (st : St)
+    (hag : ∀ t ∈ pre, AgreeAt c₁ c₂ t) (hok : (runBars c₁ sc row pre st).2.2 = none) :
+    ∃ later₁ later₂,
+      (runBars c₁ sc row (pre ++ suf₁) st).1 = (runBars c₁ sc row pre st).1 ++ later₁ ∧
+      (runBars c₂ sc row (pre ++ suf₂) st).1 = (runBars c₁ sc row pre st).1 ++ later₂ ∧
+      later₁ = (runBars c₁ sc (row + pre.length) suf₁ (runBars c₁ sc row pre st).2.1).1 ∧
+      later₂ = (runBars c₂ sc (row + pre.length) suf₂ (runBars c₁ sc row pre st).2.1).1 := by
+  have e := runBars_agree c₁ c₂ sc pre row st hag
+  have hok₂ : (runBars c₂ sc row pre st).2.2 = none := by rw [← e]; exact hok
+  refine ⟨_, _, ?_, ?_, rfl, rfl⟩
+  · rw [runBars_append c₁ sc pre suf₁ row st hok]
+  · rw [runBars_append c₂ sc pre suf₂ row st hok₂, ← e]
+
+/-- a frame supplies the same data for a bar whenever its index and its rows up to the end of the bar's bin are the same:
+    `is_open` and the row read at `ts` (first row of `[ts, ts + Δ)` after resampling, the row stamped `ts` otherwise) depend on
+    the raw rows `< ts + Δ` only, given the same resampled index up to `ts` -/
+theorem C02_frame_row_reads_own_bin_only (resample : Bool) (Δ ts : Int) (hΔ : 0 < Δ) (pre suf₁ suf₂ : List Int)
+    (h₁ : ∀ x ∈ suf₁, ts + Δ ≤ x) (h₂ : ∀ x ∈ suf₂, ts + Δ ≤ x) :
+    frameSrc resample Δ (pre ++ suf₁) ts = frameSrc resample Δ (pre ++ suf₂) ts := by
+  unfold frameSrc
+  cases resample with
+  | true =>
+    simp only [if_true, List.find?_append]
+    have s1 : suf₁.find? (fun t => decide (ts ≤ t) && decide (t < ts + Δ)) = none := by
+      apply List.find?_eq_none.mpr; intro x hx; have := h₁ x hx; simp; omega
+    have s2 : suf₂.find? (fun t => decide (ts ≤ t) && decide (t < ts + Δ)) = none := by
+      apply List.find?_eq_none.mpr; intro x hx; have := h₂ x hx; simp; omega
+    rw [s1, s2]
+  | false =>
+    have c1 : (pre ++ suf₁).contains ts = pre.contains ts := by
+      have : ts ∉ suf₁ := fun hx => by have := h₁ ts hx; omega
+      simp [this]
+    have c2 : (pre ++ suf₂).contains ts = pre.contains ts := by
+      have : ts ∉ suf₂ := fun hx => by have := h₂ ts hx; omega
+      simp [this]
+    simp only [Bool.false_eq_true, if_false, c1, c2]
+
 /-! ### non-vacuity: a loop over Uniswap-like rows with the shifted price column and a 3-bar history -/
 
 /-- rows `(timestamp, open, close)`; the view is (row, shifted price); the step accumulates the prices seen -/
@@ -193,5 +243,20 @@ example : (Core.exLoop.run ([(0, 10, 11), (60, 11, 12)] ++ [(120, 12, 9)]) []).t
     (Core.exLoop.run ([(0, 10, 11), (60, 11, 12)] ++ [(120, 500, 1), (180, 1, 1)]) []).take 2 :=
   C02_prefix Core.exLoop (C02_pair_view_local _ _ C02_row_view_local (C02_shift_view_local _ _))
     [(0, 10, 11), (60, 11, 12)] [(120, 12, 9)] [(120, 500, 1), (180, 1, 1)] []
+
+/-- two configurations that differ only after the first two bars (a market frame and a price frame with different futures) -/
+def Core.exC1 : Cfg := ⟨[⟨[0, 60, 120], false⟩], [0, 60, 120], 60, false⟩
+def Core.exC2 : Cfg := ⟨[⟨[0, 60, 180, 240], false⟩], [0, 60, 180, 240], 60, false⟩
+
+example : ∀ t ∈ [(0 : Int), 60], AgreeAt Core.exC1 Core.exC2 t := by
+  intro t ht
+  simp only [List.mem_cons, List.not_mem_nil, or_false] at ht
+  rcases ht with rfl | rfl <;> exact ⟨by decide, .cons ⟨rfl, by decide, by decide⟩ .nil⟩
+
+example : ¬ AgreeAt Core.exC1 Core.exC2 120 := by
+  intro h
+  have := h.1
+  revert this
+  decide
 
 end Demeter
